@@ -7,6 +7,22 @@ VERIF = os.path.dirname(os.path.dirname(os.path.abspath(__file__)))
 E = 'src/djinterop/engine/'
 # property -> [(name, file, old text, new text, VERIF_ONLY filter, regex expected in the VIOLATION report)]
 MUTATIONS = {
+    'C06': [
+        ('set_key forgets the copy of the key inside the track-data blob', E + 'v2/track_impl.cpp', '    track_data.key = converted.track_data_key;\n', '', 'track_impl::set_key', r'ensures blob_field'),
+        ('set_sample_count zeroes the stored key', E + 'v2/track_impl.cpp', '    track_data.samples = converted.track_data_samples;\n', '    track_data.samples = converted.track_data_samples;\n    track_data.key = 0;\n', 'track_impl::set_sample_count', r'ensures rest_of_track_data'),
+        ('set_publisher writes the composer column', E + 'v2/track_impl.cpp', 'track_.set_label(id(), publisher);', 'track_.set_composer(id(), publisher);', 'track_impl::set_publisher', r'ensures (only_its_columns|stored)'),
+        ('set_hot_cue_at writes the slot after the index', E + 'v2/track_impl.cpp', 'quick_cues.quick_cues[index] = convert::write::hot_cue(cue);', 'quick_cues.quick_cues[(index + 1) % quick_cues.quick_cues.size()] = convert::write::hot_cue(cue);', 'track_impl::set_hot_cue_at', r'ensures (stored|other_slots_kept)'),
+        ('set_main_cue clears the cue slots', E + 'v2/track_impl.cpp', '    quick_cues.is_main_cue_adjusted = true;\n', '    quick_cues.is_main_cue_adjusted = true;\n    quick_cues.quick_cues.clear();\n', 'track_impl::set_main_cue', r'ensures cue_slots_kept'),
+        ('year() reads the play order', E + 'v2/track_impl.cpp', 'optional_static_cast<int>(track_.get_year(id()))', 'optional_static_cast<int>(track_.get_play_order(id()))', 'track_impl::year', r'ensures value'),
+    ],
+    'C01': [
+        ('publisher written to the composer column', E + 'v2/track_impl.cpp', '        snapshot.publisher,\n        snapshot.composer,', '        snapshot.composer,\n        snapshot.publisher,', 'snapshot_to_row', r'ensures (publisher|composer)'),
+        ('rating clamped to 0-99', E + 'v2/convert_track.hpp', 'std::clamp(rating.value_or(RATING_NONE), 0, 100)', 'std::clamp(rating.value_or(RATING_NONE), 0, 99)', 'snapshot_to_row', r'ensures rating'),
+        ('year read from the play order column', E + 'v2/track_impl.cpp', 'snapshot.year = djinterop::util::optional_static_cast<int>(row.year);', 'snapshot.year = djinterop::util::optional_static_cast<int>(row.play_order);', 'track_impl::snapshot', r'ensures year'),
+        ('hot cues padded to seven slots', E + 'v2/convert_hot_cues.hpp', 'while (converted.size() < MAX_QUICK_CUES)', 'while (converted.size() + 1 < MAX_QUICK_CUES)', 'convert::write::hot_cues', r'ensures padded|invariant'),
+        ('loop colour dropped on read', E + 'v2/convert_loops.hpp', 'l.label, l.start_sample_offset, l.end_sample_offset,\n                     l.color})', 'l.label, l.start_sample_offset, l.end_sample_offset,\n                     pad_color{}})', 'convert::read::loops', r'ensures slot|invariant'),
+        ('duration rounded up on read', E + 'v2/convert_track.hpp', 'return std::chrono::milliseconds{length * 1000};', 'return std::chrono::milliseconds{length * 1000 + 999};', 'convert::read::duration', r'ensures milliseconds'),
+    ],
     'C05': [
         ('v2 beat grid: count read with 7 bytes left', E + 'v2/beat_data_blob.cpp', 'if (end - ptr < 8)', 'if (end - ptr < 7)', 'v2::(anonymous namespace)::decode_beatgrid', r'precondition of decode_int64_be'),
         ('v2 loops: length byte read at the end', E + 'v2/loops_blob.cpp', 'if (end - ptr < 1)', 'if (end - ptr < 0)', 'v2::loops_blob::from_blob', r'precondition of decode_uint8'),
